@@ -125,7 +125,7 @@ func c17ValidateBounds(c *Ctx) {
 	ge := NewGuardEngine(c.P, c.Depth+2)
 	form, renew, refresh := "rhp/v4.(*RPCFormContractRequest).Validate", "rhp/v4.(*RPCRenewContractRequest).Validate", "rhp/v4.(*RPCRefreshContractRequest).Validate"
 	F, N, R := "{rhp/v4.RPCFormContractRequest}", "{rhp/v4.RPCRenewContractRequest}", "{rhp/v4.RPCRefreshContractRequest}"
-	mph := func(req string) string { return "call rhp/v4.minProofHeight({types.ChainIndex}, " + req + ".Prices)" }
+	mph := func(req string) string { return "call rhp/v4.minProofHeight(" + req + ".Prices, {types.ChainIndex})" }
 	any := "…"
 	tab := []GuardReq{
 		req("form:proof-height-min", form, F+".Contract.ProofHeight", opLT, mph(F), "a proof height earlier than tip + minimum duration is rejected", any),
